@@ -82,6 +82,31 @@ def build_harness(pkg="vh", features=None, target_dir=None, bin_name=None, no_de
     return binp
 
 
+def build_harness_asan(pkg="vh", bin_name=None):
+    """The same harness under AddressSanitizer (nightly toolchain; crate code - with its unsafe blocks - is instrumented).
+    Returns the binary path, or None when no nightly toolchain with the sanitizer runtime is usable."""
+    td = os.path.join(HARNESS, "target-asan")
+    binp = os.path.join(td, "x86_64-unknown-linux-gnu", "release", bin_name or pkg)
+    key = ("asan", pkg)
+    if key in _built:
+        return binp
+    env = dict(os.environ)
+    env["CARGO_NET_OFFLINE"] = "true"
+    env["RUSTFLAGS"] = "-Zsanitizer=address --cfg anstyle_verif --check-cfg cfg(anstyle_verif)"
+    cmd = ["cargo", "+nightly", "build", "--release", "--offline", "-q", "-p", pkg, "--target", "x86_64-unknown-linux-gnu", "--target-dir", td]
+    t0 = time.time()
+    try:
+        r = subprocess.run(cmd, cwd=HARNESS, env=env, stdout=subprocess.PIPE, stderr=subprocess.STDOUT, text=True, timeout=1800)
+    except (OSError, subprocess.TimeoutExpired):
+        return None
+    if r.returncode != 0:
+        log("[build] no AddressSanitizer build of %s: %s" % (pkg, r.stdout[-300:].replace("\n", " ")))
+        return None
+    log("[build] %s under AddressSanitizer in %.1fs" % (pkg, time.time() - t0))
+    _built.add(key)
+    return binp
+
+
 def run_harness(binp, args, stdin=None, timeout=3600, env=None, check=True):
     e = dict(os.environ)
     if env:
